@@ -496,7 +496,8 @@ class Interp:
         return Opaque("unary")
 
     def binop(s, op, a, b):
-        if isinstance(op, ast.MatMult): return arr_matmul(a, b)
+        if isinstance(op, ast.MatMult):
+            return pv_apply(lambda x, y: x if is_opaque(x) else y if is_opaque(y) else arr_matmul(x, y), a, b)
         if isinstance(op, (ast.BitAnd, ast.BitOr)):
             def f(x, y):
                 if isinstance(x, bool) and isinstance(y, bool):
